@@ -29,6 +29,8 @@ def close(got, want):
 
 
 def evaluate(case):
+    if case.get("kind") == "reuse":
+        return evaluate_reuse(case)
     sums, seq, spec = case["sums"], case["seq"], case["obj"]
     weights = case.get("weights")
     kind = spec.split(":")[0]
@@ -80,6 +82,65 @@ def evaluate(case):
     if kind == "wmaxmin":
         nontrivial = nontrivial and len(set(weights)) >= 2
     return Result(fails, labels, nontrivial, None, {"definition": sut.jsonable(want)}, subcases=execs)
+
+
+def evaluate_reuse(case):
+    """One objective object evaluated on several vectors in order: every value must still be the documented quantity."""
+    spec, weights = case["obj"], case.get("weights")
+    kind = spec.split(":")[0]
+    vectors = case["vectors"]
+    labels = [f"reuse:obj={kind}", f"vectors={len(vectors)}"]
+    calls = []
+    for v in vectors:
+        asc = all(a <= b for a, b in zip(v, v[1:]))
+        declared = True if (asc and kind != "wmaxmin" and case.get("use_fast_path")) else None
+        calls.append((v, case.get("seq", "list"), declared))
+    outs = sut.objective_sequence(spec, weights, calls)
+    fails = []
+    for i, (o, (v, _, declared)) in enumerate(zip(outs, calls)):
+        w = weights[:len(v)] if weights else None
+        if kind == "wmaxmin" and len(v) != len(weights):
+            continue
+        want = definition(spec, v, w)
+        if not o.ok:
+            fails.append(Failure(f"{PROP}/{kind}/reused-object:exception:{o.exc_type}@{o.where}", dict(o.describe(), index=i)))
+            break
+        good = close(o.value, want) if kind == "wmaxmin" else (o.value == want)
+        if not good:
+            fails.append(Failure(f"{PROP}/{kind}/reused-object:wrong-value",
+                                 {"index": i, "sums": v, "earlier_vectors": vectors[:i], "got": sut.jsonable(o.value),
+                                  "definition": sut.jsonable(want), "declared_sorted": declared}))
+            break
+    lens = {len(v) for v in vectors}
+    nontrivial = len(vectors) >= 2 and len(lens) >= 2
+    if kind in ("klargest", "ksmallest"):
+        kk = int(spec.split(":")[1])
+        if any(len(v) < kk for v in vectors) and any(len(v) > kk for v in vectors):
+            labels.append("k-between-the-vector-lengths")
+    return Result(fails, labels, nontrivial, None, {"values": [sut.jsonable(o.value) if o.ok else o.describe() for o in outs]},
+                  subcases=len(vectors))
+
+
+@st.composite
+def reuse_cases(draw):
+    kind = draw(st.sampled_from(["klargest", "ksmallest", "klargest", "ksmallest", "minmax", "maxmin", "diff", "wmaxmin"]))
+    nvec = draw(st.integers(2, 4))
+    case = {"kind": "reuse", "seq": draw(st.sampled_from(SEQS)), "use_fast_path": draw(st.booleans())}
+    if kind == "wmaxmin":
+        n = draw(st.integers(1, 6))
+        case["obj"], case["weights"] = kind, draw(st.lists(st.integers(1, 10), min_size=n, max_size=n))
+        lens = [n] * nvec
+    else:
+        lens = [draw(st.integers(1, 7)) for _ in range(nvec)]
+        case["obj"] = f"{kind}:{draw(st.integers(1, max(lens) + 1))}" if kind in ("klargest", "ksmallest") else kind
+    vectors = []
+    for m in lens:
+        v = draw(st.lists(st.integers(0, 30), min_size=m, max_size=m))
+        if draw(st.booleans()):
+            v = sorted(v)
+        vectors.append(v)
+    case["vectors"] = vectors
+    return case
 
 
 def specs_for(n, with_weights=True):
@@ -141,6 +202,15 @@ def exhaustive_cases(tier):
 
 
 def valid(case):
+    if case.get("kind") == "reuse":
+        vs = case.get("vectors")
+        ok = isinstance(vs, list) and len(vs) >= 1 and all(isinstance(v, list) and v and all(isinstance(x, int) and x >= 0 for x in v) for v in vs)
+        if not ok:
+            return False
+        if case.get("obj") == "wmaxmin":
+            w = case.get("weights")
+            return isinstance(w, list) and all(len(v) == len(w) for v in vs) and all(x > 0 for x in w)
+        return True
     s = case.get("sums")
     if not isinstance(s, list) or not s or any((not isinstance(x, int)) or x < 0 for x in s):
         return False
@@ -153,6 +223,26 @@ def valid(case):
     return spec in ("minmax", "maxmin", "diff")
 
 
+def shrink_reuse(case):
+    if case.get("kind") != "reuse":
+        yield from runner.generic_shrink(case)
+        return
+    vs = case["vectors"]
+    for i in range(len(vs)):
+        if len(vs) > 1:
+            yield dict(case, vectors=vs[:i] + vs[i + 1:])
+    for i, v in enumerate(vs):
+        if case.get("obj") == "wmaxmin":
+            break
+        for j in range(len(v)):
+            if len(v) > 1:
+                yield dict(case, vectors=vs[:i] + [v[:j] + v[j + 1:]] + vs[i + 1:])
+            if v[j] > 0:
+                yield dict(case, vectors=vs[:i] + [v[:j] + [v[j] // 2] + v[j + 1:]] + vs[i + 1:])
+    if case.get("seq") != "list":
+        yield dict(case, seq="list")
+
+
 def legs(tier):
     rule = ("hypothesis: vector of 1-8 non-negative integer sums (0..10, evenly spread up to 10^6, already sorted ascending or "
             "descending) as list/tuple/int array/float array x objective (k in 1..len+3; weights ints, eighths); per case the "
@@ -163,6 +253,12 @@ def legs(tier):
     return [
         Leg("corpus", evaluate, "docstring vectors", corpus=common.load_corpus(PROP), valid=valid, shards=1),
         Leg("random", evaluate, rule, strategy=random_cases(), n_quick=10000, n_thorough=200000, valid=valid, floor=0.3),
+        Leg("reused-object", evaluate,
+            "hypothesis: ONE objective object (k-largest / k-smallest with k up to max length + 1, weighted, and the three singletons) "
+            "evaluated on 2-4 vectors of different lengths in order (some shorter than k), with and without the sorted fast path: "
+            "every value must equal the definition (an object that keeps state between evaluations shows as a wrong later value); "
+            "non-trivial = >= 2 vectors of different lengths", strategy=reuse_cases(), n_quick=3000, n_thorough=60000, valid=valid,
+            shrink=shrink_reuse, floor=0.3),
         Leg("exhaustive-small", evaluate,
             "all vectors of <=4 entries over 0..4 x every objective (k in 1..len+3) x 4 sequence types, and all weight "
             "vectors over {1,2,3} for <=3 entries (quick: 1/8 slice); same rule",
